@@ -1,6 +1,7 @@
 """Shared artefact sets for the per-artefact properties (C10 sorts, C11 text form/metadata, C12 ownership,
 C13 attributes, C16 layouts): accepted corpus parts + sub-routines + generated programs, both layouts."""
 import json
+import re
 import os
 import shutil
 import tempfile
@@ -45,7 +46,9 @@ def collect(ctx, n_corpus=(100, None), gen_modules=(("Gen_C02.tla", 10),), extra
         if isinstance(ps, dict):
             ps = ps["programs"]
         progs.extend(ps)
-    progs = [p for p in progs if not (gen_kind == "insn" and p["id"].startswith("ex-") and p["id"].split("-")[-1] in ("P10", "P31"))]
+    # explicit predicate registers above P3 do not exist in the ISA (the attribute WRITE_P<n> is defined for n = 0..3)
+    progs = [p for p in progs if not (gen_kind == "insn" and p["id"].startswith("ex-") and re.match(r"^P(\d+)$", p["id"].split("-")[-1])
+                                      and int(p["id"].split("-")[-1][1:]) > 3)]
     if keep:
         progs = [p for p in progs if keep(p)]
     for p in progs:
